@@ -79,10 +79,10 @@ def sig_of(kind, probs, tag):
 
 
 def check_case(res, cid, prog, tag):
-    srcs = {True: G.render(prog), False: scenarios.with_comments(prog)}
+    srcs = [(True, G.render(prog)), (False, scenarios.with_comments(prog)), (False, scenarios.with_comments(prog, 1))]
     for std in G.stds_for(prog):
-        for ic in (True, False):
-            check_src(res, cid, srcs[ic], std, ic, tag)
+        for ic, src in srcs:
+            check_src(res, cid, src, std, ic, tag)
 
 
 def check_src(res, cid, src, std, ic, tag):
